@@ -20,10 +20,10 @@ LEVEL = "exploration"
 TECHNIQUE = "bounded exhaustive enumeration of (valid call, single ill-posing edit) pairs on every axis layout; the edited real call must raise"
 RULE = "case = (valid call, edit); every case is non-trivial by construction: its unedited twin returned on the same grid"
 SPACE = {
-    "quick": "16 layouts x n in {2,3} x valid shifts x {diff,interp,min,max,cumsum} x edits {unknown axis, unknown axis in list, data lacks axis dim, data has two axis dims (each other position), to = current position, to = each position the axis lacks, to = unknown word, unknown boundary word (call scalar / call mapping / constructor), string fill value (call scalar / call mapping / constructor) on padded shifts}; transform edits; grid ufunc edits",
-    "thorough": "n in {2,3,4,5}",
+    "quick": "16 layouts x n in {2,3,4} x valid shifts x {diff,interp,min,max,cumsum} x edits {unknown axis, unknown axis in list, data lacks axis dim, data has two axis dims (each other position), to = current position, to = each position the axis lacks, to = unknown word, unknown boundary word (call scalar / call mapping / constructor), string fill value (call scalar / call mapping / constructor) on padded shifts}; transform edits; grid ufunc edits",
+    "thorough": "n in {2,3,4,5,6}",
 }
-BOUNDS = {"quick": {"n": [2, 3]}, "thorough": {"n": [2, 3, 4, 5]}}
+BOUNDS = {"quick": {"n": [2, 3, 4]}, "thorough": {"n": [2, 3, 4, 5, 6]}}
 ASSUMPTIONS = [
     "an unknown boundary word or a string fill value is demanded to raise only when it is in force for an axis that the request actually pads with non-zero width",
     "list-valued fill values are not 'non-numeric' (NumPy reads them as per-side values)",
